@@ -483,6 +483,7 @@ pub fn batch(out: &str, tier: &str, seed: u64) -> Value {
     let (sets, calls) = fn_batch(&mut b, if thorough { 4 } else { 3 });
     let fn_runs = b.runs;
     let table_runs = table_batch(&mut b, tier, seed);
+    b.samples.clear();
     let (dfs_cap, nrand, per) = if thorough { (1500usize, 1500usize, 3usize) } else { (120usize, 260usize, 2usize) };
     let mut nontrivial = std::collections::HashSet::new();
     let mut bad_runs = 0u64;
